@@ -15,7 +15,8 @@ from .. import core, env, gen, kdriver, specs
 from .. import tdfref as R
 
 PROP = "C17"
-RULE = ("states = (source file state from K up to depth 2, target kind, operation, path type); per state: refusal with "
+RULE = ("[plus Tdf.new as the first creation of a process that has already: serialised the header's numbers as floats / "
+        "bools, read the capture, edited a 3-slot file, had a Tdf.new refused - one process each] " +"states = (source file state from K up to depth 2, target kind, operation, path type); per state: refusal with "
         "FileExistsError + target bytes untouched, or well-formed new container / byte-identical independent copy; then "
         "every valid one-op mutation of copy and of original; non-trivial = target exists or source has >= 1 live block")
 ASSUMPTIONS = [
